@@ -20,7 +20,6 @@ model-independent) records executions that SSHSession_Trace.tla validates event 
 import json, os, random, threading
 import vlib
 
-INVS = "TypeOK S1_ExitResult S2_Conservation S2_NoDataLoss S3_StartOnce S5_StdinEOF S6_StartFailure S7_ReplyValue S8_NoStuckCall"
 
 
 def _par(ctx, jobs):
@@ -73,9 +72,9 @@ def run(ctx):
         return
 
     q = not ctx.thorough
-    mcs = ["Q", "QSrv"] if q else ["T0", "T", "TSrv", "TLite"]
+    mcs = ["Q", "QSrv"] if q else ["T0", "T32", "T23", "TSrv", "TLite"]
     gens = [("GenQ", None, None)] if q else \
-           [("GenQ", None, None), ("GenT", None, None), ("GenSrv6", None, None), ("GenLite3", None, None)]
+           [("GenQ", None, None), ("GenT", None, None), ("GenSrv5", None, None), ("GenLite3", None, None)]
     gens.append(("SimSrv", ctx.pick(400, 3000), 14))
     if not q:
         gens.append(("Sim", 2000, 14))
@@ -108,6 +107,9 @@ def run(ctx):
     def big_mcs():                  # thorough: the big model-checking runs one after the other, next to the replay
         for m in mcs:
             res["mc:" + m] = mc(m)()
+        # the code as it is with a small request buffer: documents the design-level counterexample to S9; never a verdict
+        r = ctx.tlc("SSHSession_MC", cfg="SSHSession_Stall.cfg", timeout=900, expect_violation=True, count=False)
+        ctx.notes.append("SSHSession_Stall.cfg (ReqBuf=2): TLC reports %s" % (("violation of " + str(r.violated)) if r.violated else "no violation"))
 
     def log_mcs():
         for m in mcs:
@@ -146,7 +148,10 @@ def run(ctx):
 
     # phase B: replay (binding R) and trace validation (binding T, step 2) side by side
     def replay():
-        return ctx.go_test("x01", "TestReplay$", cases=cases, timeout=2400, env={"VERIF_X01_PAR": ctx.pick(4, 6)})
+        r = ctx.go_test("x01", "TestReplay$", cases=cases, timeout=2400, env={"VERIF_X01_PAR": ctx.pick(4, 6)})
+        # directed scenario beyond the bounds (S9 with the real request-buffer size): same test binary, so no second build
+        st = ctx.go_test("x01", "TestStall$", timeout=600)
+        return r, st
 
     def validate():
         for i in range(0, len(traces), 100):
@@ -154,6 +159,7 @@ def run(ctx):
 
     res2 = _par(ctx, [("replay", replay), ("validate", validate)] + ([] if q else [("mcs", big_mcs)]))
     log_mcs()
-    ctx.absorb(res2["replay"])
+    ctx.absorb(res2["replay"][0])
+    ctx.absorb(res2["replay"][1])
     ctx.extra["recorded_long_sessions"] = len(traces)
     ctx.exhaustive = False
